@@ -592,6 +592,66 @@ fn run_help_off_decls(ctx: &ShardCtx) {
             f.check = "helpoff-parse".into();
         }
     }
+    // the same crates, Tab: without help, completion of the declared names is what it is with help (C11's model); words that
+    // are a prefix of `help` are left out - whether `help` takes part in completion without the facility is left open
+    let per_decl = ctx.tier.pick(600u64, 3000u64);
+    let mut gi = 0u64;
+    for (bin, decls) in &set.crates {
+        for d in decls {
+            gi += 1;
+            if !ctx.mine(gi) || ctx.failed() {
+                continue;
+            }
+            let names = d.visible_names();
+            ctx.run_prop(
+                &format!("helpoff-tab-{}", gi),
+                per_decl * ctx.nshards as u64,
+                super::c11::macro_case_strategy(names.clone()),
+                |c| {
+                    let mut j = super::c11::tab_json(c);
+                    j["decl"] = json!(d);
+                    j
+                },
+                |c| {
+                    let word = c.line.trim_matches(' ');
+                    if !word.is_empty() && "help".starts_with(word) {
+                        ctx.skipped();
+                        return Ok(());
+                    }
+                    let reply = servers
+                        .ask(bin, &json!({"d": d.id, "kind": "tab", "line": c.line, "cursor": c.cursor, "cap": c.cap, "prompt": c.prompt}))
+                        .map_err(|e| Failure::new("helpoff-tab", Value::Null, "the process survives Tab", e))?;
+                    match super::c11::judge_tab(c, &names, &super::c11::obs_from_reply(&reply)) {
+                        Ok((nt, _)) => {
+                            if nt {
+                                ctx.class("help-off Tab cases (non-trivial by C11's rule)");
+                                ctx.nontrivial(fingerprint(&("helpoff-tab", gi, &c.line, c.cursor, c.cap)), || super::c11::tab_json(c));
+                            }
+                            Ok(())
+                        }
+                        Err((e, o)) => Err(Failure::new("helpoff-tab", Value::Null, format!("build without help: {}", e), o)),
+                    }
+                },
+            );
+        }
+    }
+    if let Some(f) = ctx.res.borrow_mut().failure.as_mut() {
+        if f.check.starts_with("helpoff-tab") {
+            f.check = "helpoff-tab".into();
+        }
+    }
+}
+
+fn replay_help_off_tab(case: &Value) -> Verdict {
+    use super::declcommon::{self, Servers};
+    let fail = |e: String, o: String| Failure::new("helpoff-tab", case.clone(), e, o);
+    let d: vmodel::decl::Decl = serde_json::from_value(case["decl"].clone()).map_err(|e| fail("a declaration model in the replay file".into(), e.to_string()))?;
+    let c = super::c11::tab_from(case);
+    let servers = Servers::new();
+    let reply = servers
+        .ask(&declcommon::replay_bin("C16"), &json!({"d": 0, "kind": "tab", "line": c.line, "cursor": c.cursor, "cap": c.cap, "prompt": c.prompt}))
+        .map_err(|e| fail("the process survives Tab".into(), e))?;
+    super::c11::judge_tab(&c, &d.visible_names(), &super::c11::obs_from_reply(&reply)).map(|_| ()).map_err(|(e, o)| fail(e, o))
 }
 
 fn replay_help_off(case: &Value) -> Verdict {
@@ -611,6 +671,9 @@ fn replay_help_off(case: &Value) -> Verdict {
 fn replay(sub: &str, case: &Value) -> Verdict {
     if sub == "helpoff-parse" {
         return replay_help_off(case);
+    }
+    if sub == "helpoff-tab" {
+        return replay_help_off_tab(case);
     }
     let c = case_from_json(case).map_err(|e| Failure::new(sub, case.clone(), "a well-formed case", e))?;
     let mut b = Builds::start().map_err(|e| Failure::new(sub, case.clone(), "feature builds present (run the check once, or setup.sh)", e))?;
